@@ -19,7 +19,7 @@ NOT decided: that the sweep's arithmetic reaches every bucket; histories of requ
 """
 from .. import typestate
 from ..facts import Prover, FactCache, _k, strip_bitcasts
-from ..hashmodel import Roles, callgraph, reach, classify_pa, fld, is_load_of, hash_calls, at_subscripts
+from ..hashmodel import Roles, callgraph, reach, classify_pa, fld, is_load_of, hash_calls, at_subscripts, writer_between
 from ..ir import const_int, resolve_addr, unit_step
 from .util import floc
 
@@ -286,7 +286,7 @@ def check_resize_records(m, f, rule):
                 elif is_load_of(f, v2, 'bucket.hash'):
                     if not req_null or ('ne', v2, 'null') not in fs:
                         bad.append('the existing function is reused at %s although a function was requested (or none exists)' % s.loc())
-                    w = _writer_between(f, f.get(v2), s, 'bucket.hash')
+                    w = writer_between(f, f.get(v2), s, 'bucket.hash')
                     if w is not None:
                         bad.append('the existing function recorded at %s was read at %s, before %s() at %s may adopt a pending one: a function '
                                    'requested by an earlier, still pending resize is replaced by the outgoing one'
@@ -302,33 +302,6 @@ def check_resize_records(m, f, rule):
         rule.violation('cstl_hash_resize:records', '; '.join(sorted(set(bad))), floc(m, f), {})
     else:
         rule.ok('cstl_hash_resize:records', 'rh.count := request, rh.hash := request | existing | default, rh.clean := 0', floc(m, f))
-
-
-def _may_store(module, g, path, seen=None):
-    seen = seen if seen is not None else set()
-    if g is None or g.decl or g.name in seen:
-        return False
-    seen.add(g.name)
-    for i in g.all_insts():
-        if i.op == 'store' and fld(g, i) == path:
-            return True
-        if i.op == 'call' and i.callee and not i.is_intrinsic() and _may_store(module, module.fn(i.callee), path, seen):
-            return True
-    return False
-
-
-def _writer_between(f, ld, st, path):
-    """a call that may store `path` lying on a path from the load to the store"""
-    for c in f.all_insts():
-        if c.op != 'call' or not c.callee or c.is_intrinsic():
-            continue
-        if not _may_store(f.module, f.module.fn(c.callee), path):
-            continue
-        after_load = (c.block is ld.block and c.pos > ld.pos) or (c.block is not ld.block and c.block in f.reachable_from(ld.block))
-        before_store = (c.block is st.block and c.pos < st.pos) or (c.block is not st.block and st.block in f.reachable_from(c.block))
-        if after_load and before_store:
-            return c
-    return None
 
 
 def check_single_lookup(m, f, rule):
